@@ -55,6 +55,12 @@ type ChainSpec struct {
 	NotAfterDay int  // leaf NotAfter = Epoch + NotAfterDay days (default 365 when 0)
 	SigAlg      int  // index into the issuer key's algorithm list
 	Quirky      bool // the leaf carries a SAN iPAddress of 5 octets: the lenient parser accepts it with a non-fatal error
+	// Cross (needs >= 1 intermediate): the intermediate directly below the root is a cross-signed CA - one
+	// subject and key, certified both by root Root and by root Root+1. CrossAlt selects the second
+	// certificate, so two specs differing only in CrossAlt share every certificate below that CA while
+	// their paths end in different roots.
+	Cross    bool
+	CrossAlt bool
 }
 
 // Built is a resolved ChainSpec.
@@ -79,6 +85,23 @@ func inter(parent *pki.Cert, kind string, depth int) *pki.Cert {
 	k := keys.Pick(kind, depth+1)
 	c := pki.Issue(parent, pki.CATemplate("World CA "+key, k, int64(1000+len(inters)), pki.KeyID(parent.Key)), key)
 	inters[key] = c
+	return c
+}
+
+var crossCAs = map[string]*pki.Cert{}
+
+// crossCA returns the certificate of the cross-signed CA of the given key kind under the given root.
+// All variants share subject, key and label, so certificates issued below them are shared too.
+func crossCA(root *pki.Cert, kind string) *pki.Cert {
+	mu.Lock()
+	defer mu.Unlock()
+	key := root.Label + "/" + kind
+	if c, ok := crossCAs[key]; ok {
+		return c
+	}
+	k := keys.Pick(kind, 1)
+	c := pki.Issue(root, pki.CATemplate("World Cross CA "+kind, k, int64(3000+len(crossCAs)), pki.KeyID(root.Key)), "cross/"+kind)
+	crossCAs[key] = c
 	return c
 }
 
@@ -110,7 +133,15 @@ func Build(s ChainSpec) *Built {
 	ca := root
 	var cas []*pki.Cert
 	for i, kind := range s.Inters {
-		ca = inter(ca, kind, i)
+		if i == 0 && s.Cross {
+			if s.CrossAlt {
+				root = rs[mod(s.Root+1, len(rs))]
+				b.Root = root
+			}
+			ca = crossCA(root, kind)
+		} else {
+			ca = inter(ca, kind, i)
+		}
 		cas = append(cas, ca)
 	}
 	b.Issuer = ca
@@ -228,5 +259,9 @@ func GenSpec(t *rapid.T, label string) ChainSpec {
 	s.ExtRot = rapid.IntRange(0, 5).Draw(t, label+".rot")
 	s.SigAlg = rapid.IntRange(0, 2).Draw(t, label+".alg")
 	s.Quirky = rapid.IntRange(0, 7).Draw(t, label+".quirky") == 0
+	if n >= 1 {
+		s.Cross = rapid.IntRange(0, 3).Draw(t, label+".cross") == 0
+		s.CrossAlt = rapid.Bool().Draw(t, label+".crossalt")
+	}
 	return s
 }
